@@ -113,16 +113,26 @@ class Analyzer(cfg.GraphVisitor):
     self._definition_factory = definition_factory
     super(Analyzer, self).__init__(graph)
     self.gen_map = {}
+    self._for_loop_headers = cfg.for_loop_headers(graph)
 
   def init_state(self, _):
     return _NodeState()
 
   def visit_node(self, node):
     prev_defs_out = self.out[node]
+    prev_defs_in = self.in_[node]
 
     defs_in = _NodeState()
     for n in node.prev:
       defs_in |= self.out[n]
+      if n in self._for_loop_headers:
+        # The loop target is only assigned when entering the loop body. On the
+        # edges that leave the loop its previous definitions are still visible.
+        _, targets, body_nodes = self._for_loop_headers[n]
+        if node.ast_node not in body_nodes:
+          for s in targets:
+            if s in self.in_[n].value:
+              defs_in.value.setdefault(s, set()).update(self.in_[n].value[s])
 
     if anno.hasanno(node.ast_node, anno.Static.SCOPE):
       node_scope = anno.getanno(node.ast_node, anno.Static.SCOPE)
@@ -160,6 +170,8 @@ class Analyzer(cfg.GraphVisitor):
     self.in_[node] = defs_in
     self.out[node] = defs_out
 
+    if node in self._for_loop_headers and prev_defs_in != defs_in:
+      return True
     return prev_defs_out != defs_out
 
 
